@@ -544,6 +544,67 @@ type vendored struct {
 	upstream func(w *World) (string, error)
 	pkg      string
 	allow    map[string]string // function -> reason it may differ
+	// allowDiff: for an allowed function that is still mostly a copy, the documented edit line by line
+	// (upstream lines removed, local lines added; whitespace-trimmed). Any other difference is reported.
+	allowDiff map[string]lineEdit
+}
+
+type lineEdit struct{ removed, added []string }
+
+// lineDiff returns the lines of a that are not matched in b and vice versa (longest common subsequence).
+func lineDiff(a, b []string) (removed, added []string) {
+	n, m := len(a), len(b)
+	l := make([][]int, n+1)
+	for i := range l {
+		l[i] = make([]int, m+1)
+	}
+	for i := n - 1; i >= 0; i-- {
+		for j := m - 1; j >= 0; j-- {
+			if a[i] == b[j] {
+				l[i][j] = l[i+1][j+1] + 1
+			} else if l[i+1][j] >= l[i][j+1] {
+				l[i][j] = l[i+1][j]
+			} else {
+				l[i][j] = l[i][j+1]
+			}
+		}
+	}
+	i, j := 0, 0
+	for i < n && j < m {
+		switch {
+		case a[i] == b[j]:
+			i++
+			j++
+		case l[i+1][j] >= l[i][j+1]:
+			removed = append(removed, a[i])
+			i++
+		default:
+			added = append(added, b[j])
+			j++
+		}
+	}
+	removed = append(removed, a[i:]...)
+	added = append(added, b[j:]...)
+	return
+}
+
+func sameMultiset(a, b []string) bool {
+	if len(a) != len(b) {
+		return false
+	}
+	m := map[string]int{}
+	for _, x := range a {
+		m[x]++
+	}
+	for _, x := range b {
+		m[x]--
+	}
+	for _, v := range m {
+		if v != 0 {
+			return false
+		}
+	}
+	return true
 }
 
 func upstreamGoroot(rel string) func(*World) (string, error) {
@@ -643,6 +704,46 @@ func ruleVendoredEqualsUpstream(c *Ctx, rule string, v vendored) {
 	for _, n := range names {
 		key := v.file + "|" + n
 		if reason, ok := v.allow[n]; ok {
+			if want, fine := v.allowDiff[n]; fine {
+				ut, has := uf[n]
+				if !has {
+					c.Fail(rule, key, token.NoPos, "function %s does not exist upstream", n)
+					continue
+				}
+				rem, add := lineDiff(strings.Split(ut, "\n"), strings.Split(lf[n], "\n"))
+				if sameMultiset(rem, want.removed) && sameMultiset(add, want.added) {
+					c.OK(rule, key+"|documented-edit", token.NoPos, len(rem)+len(add), "differs from upstream exactly by the documented edit (%s)", reason)
+				} else {
+					var extra []string
+					wantAdd := map[string]int{}
+					for _, x := range want.added {
+						wantAdd[x]++
+					}
+					for _, x := range add {
+						if wantAdd[x] > 0 {
+							wantAdd[x]--
+						} else {
+							extra = append(extra, "+ "+x)
+						}
+					}
+					wantRem := map[string]int{}
+					for _, x := range want.removed {
+						wantRem[x]++
+					}
+					for _, x := range rem {
+						if wantRem[x] > 0 {
+							wantRem[x]--
+						} else {
+							extra = append(extra, "- "+x)
+						}
+					}
+					if len(extra) > 6 {
+						extra = append(extra[:6], "…")
+					}
+					c.Fail(rule, key+"|documented-edit", token.NoPos, "function %s differs from the upstream copy by more than its documented edit (%s): %s — the rest of the function is meant to stay a copy and relies on upstream's invariants", n, reason, strings.Join(extra, " | "))
+				}
+				continue
+			}
 			c.Note("%s: %s is a documented local edit (%s) and is not compared", rule, n, reason)
 			continue
 		}
@@ -665,6 +766,16 @@ var vendoredScanner = vendored{
 	allow: map[string]string{
 		"(*Scanner).Scan":        "teaches the scanner single-quoted strings and double-quoted identifiers (the reason for the copy)",
 		"(*Scanner).isIdentRune": "copied from go 1.18; upstream later added an EOF test",
+	},
+	allowDiff: map[string]lineEdit{
+		"(*Scanner).Scan": {
+			removed: []string{"tok = String", "if s.Mode&ScanChars != 0 {", "s.scanChar()", "tok = Char"},
+			added:   []string{"tok = DelimIdent", "if s.Mode&ScanStrings != 0 {", "s.scanString('\\'')", "tok = String"},
+		},
+		"(*Scanner).isIdentRune": {
+			removed: []string{"return ch != EOF && s.IsIdentRune(ch, i)"},
+			added:   []string{"return s.IsIdentRune(ch, i)"},
+		},
 	},
 }
 
